@@ -469,7 +469,15 @@ def method(eng: Engine, e: ast.Call, st: State, recv: V, m: str, args: List[V], 
         raise Unsupported("list method %s" % m, e)
     if isinstance(recv, VStr):
         if m == "join":
-            raise Unsupported("str.join", e)
+            # sep.join(list of strings): an uninterpreted function of (separator, the list); every call is recorded for the postconditions
+            S = eng.S
+            lst = eng.list_of(args[0], st, e)
+            fn = S.func("str_join", S.Atom, z3.ArraySort(z3.IntSort(), S.Atom), z3.IntSort(), S.Atom)
+            r = fn(S.str_const(recv.s), lst.arr, lst.n)
+            st.assume(r != S.NONE)
+            st.ghost["join_calls"] = list(st.ghost.get("join_calls", [])) + [(recv.s, lst)]
+            eng.registry.note("sep.join(list) treated as an uninterpreted function of the separator and the list of pieces")
+            return [(st, VScalar(r, T.atom))]
         if m == "__repr__":
             return [(st, VStr(repr(recv.s)))]
     if isinstance(recv, VScalar) and recv.ty.kind == "int" and m == "__repr__":
